@@ -53,7 +53,9 @@ def meso_pg(rng, cls):
 
 
 def axis_pg(rng, cls):
-    pg = gen.random_pg(rng, cls, n_range=(6, 10), alphabet=gen.SMALL, p_stereo=0.0, max_deg=3, allow_isolated=False)
+    if cls == "StereoCondensedReactionGraph" and rng.random() < 0.4:
+        return gen.bond_change_only_pair(rng)[0]  # no changed bond, no atom stereo change: only a bond stereo change
+    pg = gen.random_pg(rng, cls, n_range=(6, 10), alphabet=gen.SMALL, p_stereo=0.0, max_deg=3, allow_isolated=False, p_role=rng.choice([0.0, 0.35]))
     nb = sem.pg_neighbors(pg)
     cands = [b for b in pg["bonds"] if all(1 <= len(nb[x] - b) <= 2 for x in b)]
     if not cands:
